@@ -239,7 +239,7 @@ struct Walker {
 		{ bool inRound = false;
 		  for (int i = 0; i < x.n; ++i) { const Ev& e = x.tr[i];
 			if (e.kind == E_ACT_PLAN && e.method != 255 && e.f > 0.5f && e.a >= 0 && e.a < HV_REGION_COUNT) in.planExists[e.a] = true;
-			if (e.kind == E_ACT_PLAN) { in.plansUsed = true; if (e.method != 255 && e.b > 0 && e.b < HV_NS && node(e.b).kind == ORTHO) { bool onlyOrtho = true; for (int c = node(e.b).parent; c >= 0; c = node(c).parent) if (node(c).kind != ORTHO) onlyOrtho = false; if (onlyOrtho) in.degeneratePlanDest = true; } }
+			if (e.kind == E_ACT_PLAN) { in.plansUsed = true; if (e.method != 255 && e.b > 0 && e.b < HV_NS && node(e.b).kind != LEAF) { bool onlyOrtho = true; for (int c = node(e.b).parent; c >= 0; c = node(c).parent) if (node(c).kind != ORTHO) onlyOrtho = false; if (onlyOrtho) in.degeneratePlanDest = true; } }
 			if (e.kind == E_ROUND) inRound = true;
 			// marks set while transitions are being processed are not consumed by this step's plan update
 			if ((e.kind == E_ACT_SUCCEED || e.kind == E_ACT_FAIL) && (inRound || !in.inUpdateOrReact)) in.outstandingMarks = true;
@@ -282,13 +282,13 @@ struct Walker {
 			FILE* f = std::fopen(b.file, "r"); std::string text; if (f) { char l[1024]; int n = 0; while (std::fgets(l, sizeof l, f)) if (++n == b.line) { text = l; break; } std::fclose(f); }
 			if (text.find("index < TransitionSets::CAPACITY") != std::string::npos) return S.known("F31");
 		}
-		// F29: destination = an orthogonal region without any composite ancestor
+		// F29: destination = a region without any composite ancestor (an orthogonal region itself, or a composite region holding an active orthogonal one)
 		if (b.file) {
 			FILE* f = std::fopen(b.file, "r"); std::string text; if (f) { char l[1024]; int n = 0; while (std::fgets(l, sizeof l, f)) if (++n == b.line) { text = l; break; } std::fclose(f); }
 			if (text.find("HFSM2_ASSERT(!!requested)") != std::string::npos) {
 				bool degenerate = false;
-				for (int i = 0; i < in.ctx.n; ++i) { const Ev& e = in.ctx.tr[i]; if ((e.kind == E_ACT_REQ || e.kind == E_PEND || e.kind == E_LOG_TRANSITION) && e.a != T_SCHEDULE && e.b > 0 && e.b < HV_NS && node(e.b).kind == ORTHO) { bool onlyOrtho = true; for (int c = node(e.b).parent; c >= 0; c = node(c).parent) if (node(c).kind != ORTHO) onlyOrtho = false; if (onlyOrtho) degenerate = true; } }
-				for (auto& q : in.queued) if (q.type != T_SCHEDULE && q.dest > 0 && node(q.dest).kind == ORTHO) { bool onlyOrtho = true; for (int c = node(q.dest).parent; c >= 0; c = node(c).parent) if (node(c).kind != ORTHO) onlyOrtho = false; if (onlyOrtho) degenerate = true; }
+				for (int i = 0; i < in.ctx.n; ++i) { const Ev& e = in.ctx.tr[i]; if ((e.kind == E_ACT_REQ || e.kind == E_PEND || e.kind == E_LOG_TRANSITION) && e.a != T_SCHEDULE && e.b > 0 && e.b < HV_NS && node(e.b).kind != LEAF) { bool onlyOrtho = true; for (int c = node(e.b).parent; c >= 0; c = node(c).parent) if (node(c).kind != ORTHO) onlyOrtho = false; if (onlyOrtho) degenerate = true; } }
+				for (auto& q : in.queued) if (q.type != T_SCHEDULE && q.dest > 0 && node(q.dest).kind != LEAF) { bool onlyOrtho = true; for (int c = node(q.dest).parent; c >= 0; c = node(c).parent) if (node(c).kind != ORTHO) onlyOrtho = false; if (onlyOrtho) degenerate = true; }
 				if (degenerate || in.degeneratePlanDest || in.degenerateReplay) return S.known("F29");
 			}
 		}
@@ -719,7 +719,7 @@ void Walker::step(const Op& o, size_t index) {
 		if (S.replica) break;
 		std::vector<M::Transition> v; const int n = 1 + o.a2 % 48;
 		for (int k = 0; k < n; ++k) { const uint32_t h = mix(o.a0 * 256u + o.a1, (uint32_t) k + 5u); int t = (int) (h % 7), d = (int) ((h >> 4) % HV_NS); saneRequest(t, d); v.push_back(M::Transition{(StateID) d, (TransitionType) t}); }
-		for (auto& t : v) if (t.type != TransitionType::SCHEDULE && t.destination > 0 && node(t.destination).kind == ORTHO) { bool onlyOrtho = true; for (int c = node(t.destination).parent; c >= 0; c = node(c).parent) if (node(c).kind != ORTHO) onlyOrtho = false; if (onlyOrtho) in.degenerateReplay = true; }
+		for (auto& t : v) if (t.type != TransitionType::SCHEDULE && t.destination > 0 && node(t.destination).kind != LEAF) { bool onlyOrtho = true; for (int c = node(t.destination).parent; c >= 0; c = node(c).parent) if (node(c).kind != ORTHO) onlyOrtho = false; if (onlyOrtho) in.degenerateReplay = true; }
 		{ bool anyTransition = false; for (auto& t : v) if (t.type != TransitionType::SCHEDULE) anyTransition = true; if (!anyTransition) v[0] = M::Transition{(StateID) (1 % HV_NS), TransitionType::CHANGE}; } // a recorded history always holds a transition
 		in.overlongReplay = n > HV_COMPO_COUNT * HV_SUBST_LIMIT;
 		bool ok = false; LIB(ok = f.replayTransitions(&v[0], (hfsm2::Short) n)); (void) ok;
